@@ -92,6 +92,8 @@ type Unit struct {
 	usedLemmas map[string]bool
 	nonNil map[string]bool
 	covCtr int
+	ifaceDyn map[string]dynInfo
+	pendingLive [][2]string
 	callOrd map[string]int
 	usedSpec map[string]bool
 	bridge map[string]bool
@@ -198,6 +200,7 @@ func (u *Unit) heap(st *State, name, smtSort string) Term {
 	if !u.decl[init] {
 		u.decl[init] = true
 		u.items = append(u.items, fmt.Sprintf("(declare-const %s %s)", init, smtSort))
+		u.liveAxiom(name, init, sanitize("G.nextRef")+"!init")
 	}
 	u.eng.heapSorts[name] = smtSort
 	t := Term{init, nil}
@@ -220,23 +223,93 @@ func (u *Unit) havocHeap(st *State, name string) Term {
 	n := u.fresh(name + "_hv")
 	u.items = append(u.items, fmt.Sprintf("(declare-const %s %s)", n, srt))
 	st.heaps[name] = Term{n, nil}
+	u.pendingLive = append(u.pendingLive, [2]string{name, n})
 	return st.heaps[name]
+}
+
+// liveAxiom: heap well-formedness - every reference stored in (this version of) a heap denotes an object
+// that exists, i.e. lies below the allocation frontier of that moment.
+func (u *Unit) liveAxiom(name, version, frontier string) {
+	k, ok := u.eng.heapKinds[name]
+	if !ok {
+		return
+	}
+	if !u.decl[frontier] && strings.HasSuffix(frontier, "!init") {
+		u.decl[frontier] = true
+		u.items = append(u.items, fmt.Sprintf("(declare-const %s Int)", frontier))
+	}
+	nested := strings.HasPrefix(name, "E.")
+	selq := "(select " + version + " q_r)"
+	vars := "((q_r Int))"
+	if nested {
+		selq = "(select (select " + version + " q_r) q_i)"
+		vars = "((q_r Int) (q_i Int))"
+	}
+	var body string
+	switch k {
+	case KRef:
+		body = fmt.Sprintf("(< %s %s)", selq, frontier)
+	case KSlice:
+		body = fmt.Sprintf("(< (s-ref %s) %s)", selq, frontier)
+	case KIface:
+		body = fmt.Sprintf("(< (i-val %s) %s)", selq, frontier)
+	case KStruct:
+		// references held in the fields of a struct value stored in the heap
+		st := u.eng.heapStructs[name]
+		if st == nil {
+			return
+		}
+		sn := u.tc.structName(st)
+		stt := st.Underlying().(*types.Struct)
+		var parts []string
+		for i := 0; i < stt.NumFields(); i++ {
+			fs := u.tc.sortOf(stt.Field(i).Type())
+			fsel := "(" + u.tc.fieldSel(sn, i) + " " + selq + ")"
+			switch fs.K {
+			case KRef:
+				parts = append(parts, fmt.Sprintf("(< %s %s)", fsel, frontier))
+			case KSlice:
+				parts = append(parts, fmt.Sprintf("(< (s-ref %s) %s)", fsel, frontier))
+			case KIface:
+				parts = append(parts, fmt.Sprintf("(< (i-val %s) %s)", fsel, frontier))
+			}
+		}
+		if len(parts) == 0 {
+			return
+		}
+		body = "(and " + strings.Join(parts, " ") + ")"
+		if len(parts) == 1 {
+			body = parts[0]
+		}
+	default:
+		return
+	}
+	u.items = append(u.items, fmt.Sprintf("(assert (forall %s (! %s :pattern (%s))))", vars, body, selq))
 }
 
 func (u *Unit) fieldHeapName(structT types.Type, field int) (string, string, *Sort) {
 	sn := u.tc.structName(structT)
 	st := u.tc.structNames[sn]
 	fs := u.tc.sortOf(st.Field(field).Type())
+	u.eng.heapKinds["H."+sn+"."+st.Field(field).Name()] = fs.K
+	if fs.K == KStruct {
+		u.eng.heapStructs["H."+sn+"."+st.Field(field).Name()] = st.Field(field).Type()
+	}
 	return "H." + sn + "." + st.Field(field).Name(), "(Array Int " + u.tc.smt(fs) + ")", fs
 }
 
 func (u *Unit) elemHeapName(elemT types.Type) (string, string, *Sort) {
 	es := u.tc.sortOf(elemT)
+	u.eng.heapKinds["E."+u.tc.typeName(elemT)] = es.K
+	if es.K == KStruct {
+		u.eng.heapStructs["E."+u.tc.typeName(elemT)] = elemT
+	}
 	return "E." + u.tc.typeName(elemT), "(Array Int (Array Int " + u.tc.smt(es) + "))", es
 }
 
 func (u *Unit) boxHeapName(t types.Type) (string, string, *Sort) {
 	s := u.tc.sortOf(t)
+	u.eng.heapKinds["B."+u.tc.typeName(t)] = s.K
 	return "B." + u.tc.typeName(t), "(Array Int " + u.tc.smt(s) + ")", s
 }
 
